@@ -295,7 +295,7 @@ func sameResource(a, b resource.Resource, exactTimes bool) string {
 		if !a.Metadata().Equal(*b.Metadata()) {
 			return fmt.Sprintf("metadata differ: %s vs %s", a.Metadata(), b.Metadata())
 		}
-	} else if !resource.Equal(a, b) {
+	} else if !resource.Equal(a, b) && !sameRawContents(a, b) {
 		return fmt.Sprintf("resources differ: %#v / %v vs %#v / %v", a.Metadata(), a.Spec(), b.Metadata(), b.Spec())
 	}
 
@@ -311,6 +311,28 @@ func sameResource(a, b resource.Resource, exactTimes bool) string {
 	}
 
 	return ""
+}
+
+// sameRawContents compares two pass-through resources (protobuf.Resource) by what they carry: equal metadata, the same
+// spec bytes and the same YAML text. resource.Equal falls back to reflect.DeepEqual for them, which tells a spec of zero
+// bytes held as an empty slice from one held as a nil slice - the same spec (found by FuzzStoreProtobuf: an input with a
+// present but empty spec field decodes to the former, its re-encoding to the latter).
+func sameRawContents(a, b resource.Resource) bool {
+	pa, ok1 := a.(*protobuf.Resource)
+	pb, ok2 := b.(*protobuf.Resource)
+
+	if !ok1 || !ok2 || !a.Metadata().Equal(*b.Metadata()) {
+		return false
+	}
+
+	ma, err1 := pa.Marshal()
+	mb, err2 := pb.Marshal()
+
+	if err1 != nil || err2 != nil {
+		return false
+	}
+
+	return bytes.Equal(ma.GetSpec().GetProtoSpec(), mb.GetSpec().GetProtoSpec()) && ma.GetSpec().GetYamlSpec() == mb.GetSpec().GetYamlSpec()
 }
 
 // Run checks all round trips for one plan.
